@@ -143,6 +143,7 @@ def c02(tier, seed):
         ("pinf", "pinf", 200, 5000, 8, []),
         ("dinf", "dinf", 200, 5000, 8, []),
         ("bad", "badscale", 150, 4000, 8, []),
+        ("gate", "gate", 150, 4000, 8, []),
     ])
 
 
